@@ -384,9 +384,18 @@ def check_parent(seed, shard, max_positions=None):
 
     rng = random.Random(seed)
     spec, info = gen.gen_spec(rng, profile="structural", max_channels=3, max_samples=3, max_bins=4)
-    if rng.random() < 0.5:
-        # make sure different widths occur so that the width faults are applicable
-        pass
+    if rng.random() < 0.35:
+        # one MC-statistics modifier carried by the SAME sample in several channels (one name, one sample): the carrier the
+        # compensating staterror length faults need, rare in the plain generator
+        byname = {}
+        for c in spec["channels"]:
+            for s_ in c["samples"]:
+                byname.setdefault(s_["name"], []).append(s_)
+        multi = sorted(n for n, lst in byname.items() if len(lst) >= 2 and not any(m["type"] == "staterror" for s_ in lst for m in s_["modifiers"]))
+        if multi:
+            n = rng.choice(multi)
+            for s_ in byname[n]:
+                s_["modifiers"].append({"name": "mcstat_shared", "type": "staterror", "data": [gen._round(0.08 * abs(v) + 0.3, 3) for v in s_["data"]]})
     outcome, detail = classify(spec, "mu")
     if outcome != "pyhf-exception" and outcome != "accepted":
         shard.skip(f"parent raised {outcome}")
